@@ -98,7 +98,8 @@ theorem parseDirectiveLocations_complete (fl : Flags) (fuel : Nat) (ns : List Na
   apply delimitedList_complete fl _ .pipe nameV fuel ns l l' ts rest hne (Nat.le_trans (sepV_len hw h) hf)
   · intro y hy l ts l' rest hc
     have c := parseName_complete fl y l l' ts rest hc
-    simp [parseDirectiveLocation, bind_eq, c, w y hy, pure_eq]
+    obtain ⟨t0, tl, rfl, _⟩ := nameV_first hc
+    simp [parseDirectiveLocation, bind_eq, peek_cons, c, w y hy, pure_eq]
   · intro y _ l ts r hc
     obtain ⟨t0, tl, rfl, hk⟩ := nameV_first hc
     exact NotK.cons (by simp [hk])
